@@ -10,12 +10,14 @@ import copy
 from engine import symx as H
 from harness import world as W
 import clematis.engine.orchestrator as ORCH
+import clematis.engine.orchestrator.core as OC
 from clematis.engine.stages.t3.policy import deliberate as _real_deliberate
 from clematis.engine.types import ProposedDelta
 
 BUST = ["none", "on-apply"]
 CAD = [1, 2]
 TEXTS = ["alpha beta", "beta gamma", "alpha"]
+AGENTS = ["A", "B", "A"]
 
 
 def pick(lst, i):
@@ -65,9 +67,19 @@ def _history(switches, ci, bi, skip_off):
     state["store"] = RecStore(state["store"])
     saved = ORCH.__dict__.get("t3_deliberate")
     ORCH.t3_deliberate = _planner_with_deltas
+    saved_loader = OC.load_latest_snapshot
+
+    def old_snapshot_loader(ctx, st):
+        # environment model: the snapshot directory holds an OLDER snapshot; whenever the boot loader runs it restores it.
+        # The state of these histories has already booted, so a correct engine never calls it.
+        st["version_etag"] = "0"
+        return st
+
+    OC.load_latest_snapshot = old_snapshot_loader
     try:
         return _history_inner(state, switches, ci, bi, skip_off)
     finally:
+        OC.load_latest_snapshot = saved_loader
         if saved is None:
             ORCH.__dict__.pop("t3_deliberate", None)
         else:
@@ -85,7 +97,7 @@ def _history_inner(state, switches, ci, bi, skip_off):
         cfg = W.make_cfg({"t1": {"decay": {"mode": "exp_floor", "rate": 0.6, "floor": 0.05}},
                           "t4": {"enabled": True, "snapshot_every_n_turns": cad, "cache_bust_mode": bust}}, memo=("c04w", cad, bust))
         cfg["t4"]["enabled"] = on
-        ctx = W.make_ctx(cfg, turn_id=4 + i, agent="A")
+        ctx = W.make_ctx(cfg, turn_id=4 + i, agent=AGENTS[i])
         before = copy.deepcopy(_dump(state))
         ncalls = len(state["store"].calls)
         res, spy = W.run_turn(ctx, state, TEXTS[i])
@@ -97,8 +109,8 @@ def _history_inner(state, switches, ci, bi, skip_off):
 
 @H.ob(model="none", quick=400, thorough=900, per_path=200,
       targets=("clematis/engine/orchestrator/core.py:Orchestrator.run_turn", "clematis/engine/apply.py:apply_changes", "clematis/engine/stages/t4.py:t4_filter", "clematis/engine/snapshot.py:write_snapshot"),
-      stubs=("TurnSpy log/snapshot capture", "graph store wrapped in a recording double (apply_deltas recorded, reads delegate to the real store)", "planner = real rule-based deliberate() + two proposed deltas through the documented orchestrator.t3_deliberate hook"),
-      bounds="history of 3 real turns (ids 4,5,6, three texts) on world W3/M3 with the real in-memory store; t4.enabled of each turn a SYMBOLIC boolean; snapshot cadence by index over {1,2}; cache-bust mode by index over {none, on-apply}",
+      stubs=("TurnSpy log/snapshot capture", "orchestrator.core.load_latest_snapshot -> model of a snapshot directory holding an older snapshot (restores version 0 whenever the boot loader runs; the state has already booted)", "graph store wrapped in a recording double (apply_deltas recorded, reads delegate to the real store)", "planner = real rule-based deliberate() + two proposed deltas through the documented orchestrator.t3_deliberate hook"),
+      bounds="history of 3 real turns (ids 4,5,6, agents A,B,A sharing the state, three texts) on world W3/M3 with the real in-memory store; t4.enabled of each turn a SYMBOLIC boolean; snapshot cadence by index over {1,2}; cache-bust mode by index over {none, on-apply}",
       split={"k1": [False, True], "ci": [0, 1]},
       note="C04 kill switch toggled at arbitrary turns: a turn with the switch off makes no call to the store's apply_deltas, leaves store contents (nodes, edges, per-graph etags) and state version untouched, writes no snapshot and emits no t4.jsonl/apply.jsonl record, yet still returns an utterance and a turn record; a turn with the switch on hands the store exactly one batch with the approved deltas in canonical order, advances the version by exactly one, emits one apply record carrying that version and snapshots exactly on the cadence; and the store/version after the history equal those of the same history with the switched-off turns left out")
 def kill_switch(k1: bool, k2: bool, k3: bool, ci: int, bi: int) -> bool:
